@@ -6,6 +6,11 @@
 #include <fcppt/bit/shift_count.hpp>
 #include <fcppt/bit/shifted_mask.hpp>
 #include <fcppt/bit/test.hpp>
+#include <fcppt/bit/mask_c.hpp>
+#include <fcppt/bit/shifted_mask_c.hpp>
+#include <fcppt/cast/size.hpp>
+#include <fcppt/cast/to_signed.hpp>
+#include <fcppt/cast/to_unsigned.hpp>
 #include <fcppt/cast/truncation_check.hpp>
 #include <fcppt/enum/from_int.hpp>
 #include <fcppt/math/ceil_div.hpp>
@@ -630,6 +635,77 @@ template <class T> void interval_distance_all()
         }
 }
 
+// ---------------------------------------------------------------- sign and size casts, constant masks
+// cast::to_signed / to_unsigned / size are value-preserving whenever the value is representable in the result
+// (their documentation calls them unsafe otherwise: those inputs are skipped, not asserted)
+template <class U> void sign_casts()
+{
+  using S = std::make_signed_t<U>;
+  static std::string const n_ts = std::string("cast::to_signed<") + tname<U>::v + ">";
+  static std::string const n_tu = std::string("cast::to_unsigned<") + tname<S>::v + ">";
+  for (U x : domain<U>())
+    if (fits<S>(static_cast<i128>(x)) && vrt::begin(n_ts.c_str(), x))
+    {
+      vrt::nontrivial(static_cast<i128>(x) == hi<S>() || x == 0);
+      S const r = fcppt::cast::to_signed(x);
+      static_assert(std::is_same_v<decltype(fcppt::cast::to_signed(x)), S>);
+      VRT_CHECK(static_cast<i128>(r) == static_cast<i128>(x), n_ts + ":wrong", "got %lld", (long long)r);
+    }
+  for (S x : domain<S>())
+    if (x >= 0 && vrt::begin(n_tu.c_str(), x))
+    {
+      vrt::nontrivial(static_cast<i128>(x) == hi<S>() || x == 0);
+      U const r = fcppt::cast::to_unsigned(x);
+      static_assert(std::is_same_v<decltype(fcppt::cast::to_unsigned(x)), U>);
+      VRT_CHECK(static_cast<i128>(r) == static_cast<i128>(x), n_tu + ":wrong", "got %llu", (unsigned long long)r);
+    }
+}
+template <class D, class S> void size_cast_pair()
+{
+  static std::string const n = std::string("cast::size<") + tname<D>::v + ">(" + tname<S>::v + ")";
+  for (S x : domain<S>())
+    if (fits<D>(static_cast<i128>(x)) && vrt::begin(n.c_str(), as64(static_cast<i128>(x) > hi<std::int64_t>() ? -1 : static_cast<i128>(x))))
+    {
+      vrt::nontrivial(static_cast<i128>(x) == hi<D>() || static_cast<i128>(x) == lo<D>());
+      D const r = fcppt::cast::size<D>(x);
+      VRT_CHECK(static_cast<i128>(r) == static_cast<i128>(x), n + ":wrong", "value changed");
+    }
+}
+template <class D> void size_cast_dest()
+{
+  if constexpr (std::is_signed_v<D>)
+  {
+    size_cast_pair<D, i8>(); size_cast_pair<D, i16>(); size_cast_pair<D, i32>(); size_cast_pair<D, i64>();
+  }
+  else
+  {
+    size_cast_pair<D, u8>(); size_cast_pair<D, u16>(); size_cast_pair<D, u32>(); size_cast_pair<D, u64>();
+  }
+}
+// shifted_mask_c<T, B> has exactly bit B; mask_c<T, M> has exactly the bits of M (all B, M = 1<<B and ~(1<<B))
+template <class T, unsigned B> void const_mask_one()
+{
+  static std::string const n = std::string("mask_c<") + tname<T>::v + ">";
+  if (!vrt::begin(n.c_str(), B))
+    return;
+  vrt::nontrivial(B == 0 || B + 1 == sizeof(T) * 8);
+  constexpr T one = static_cast<T>(static_cast<T>(1) << B);
+  constexpr T inv = static_cast<T>(~one);
+  constexpr fcppt::bit::mask<T> sm = fcppt::bit::shifted_mask_c<T, fcppt::bit::shift_count{B}>();
+  constexpr fcppt::bit::mask<T> m1 = fcppt::bit::mask_c<T, one>();
+  constexpr fcppt::bit::mask<T> m2 = fcppt::bit::mask_c<T, inv>();
+  VRT_CHECK(sm.get() == one, n + ":shifted_mask_c", "bit %u: 0x%llx", B, (unsigned long long)sm.get());
+  VRT_CHECK(m1.get() == one && m2.get() == inv, n + ":mask_c", "bit %u: 0x%llx 0x%llx", B, (unsigned long long)m1.get(), (unsigned long long)m2.get());
+  for (unsigned b = 0; b < sizeof(T) * 8; ++b)
+  {
+    T const v = static_cast<T>(static_cast<T>(1) << b);
+    VRT_CHECK(fcppt::bit::test(v, sm) == (b == B), n + ":bit_test_const", "test(1<<%u, shifted_mask_c %u)", b, B);
+    VRT_CHECK(fcppt::bit::test(v, m2) == (b != B), n + ":bit_test_const_inv", "test(1<<%u, mask_c ~bit %u)", b, B);
+  }
+}
+template <class T, unsigned... B> void const_masks(std::integer_sequence<unsigned, B...>) { (const_mask_one<T, B>(), ...); }
+template <class T> void const_masks_all() { const_masks<T>(std::make_integer_sequence<unsigned, sizeof(T) * 8>()); }
+
 template <class T> std::vector<T> dense(int from, int to)
 {
   std::vector<T> r;
@@ -685,6 +761,12 @@ int main(int argc, char **argv)
     power_of_2_all<i16>();
     power_of_2_all<i32>();
     power_of_2_all<i64>();
+  });
+  vrt::shard("casts_and_const_masks", [] {
+    sign_casts<u8>(); sign_casts<u16>(); sign_casts<u32>(); sign_casts<u64>();
+    size_cast_dest<u8>(); size_cast_dest<i8>(); size_cast_dest<u16>(); size_cast_dest<i16>();
+    size_cast_dest<u32>(); size_cast_dest<i32>(); size_cast_dest<u64>(); size_cast_dest<i64>();
+    const_masks_all<u8>(); const_masks_all<u16>(); const_masks_all<u32>(); const_masks_all<u64>();
   });
   vrt::shard("binary_u8", [] { binary_unsigned<u8>(); });
   vrt::shard("binary_i8", [] { binary_signed<i8>(); });
